@@ -119,12 +119,13 @@ theorem teardown_releases (c : Conn) (p : Nat × Channel) (hb : p.2.bClose = tru
 /-- **receiver side**: a reliable bunch that is ahead of sequence — a close bunch included — is queued and nothing
 else happens to the channel: it is *not* marked closed, so no teardown can discard it or its predecessors -/
 theorem early_close_only_queued (c : Conn) (x : Channel) (b : Bunch) (hrel : b.bReliable = true) (hahead : b.chSeq > x.inReliable + 1)
-    (q : List Bunch) (hq : enqueueIncoming b x.inRec = some q) :
+    (hroom : x.inRec.length + 1 < reliableBuffer) (q : List Bunch) (hq : enqueueIncoming b x.inRec = some q) :
     (c.processBunch x b).1 = c.setChan b.chIndex { x with inRec := q } ∧ (c.processBunch x b).2 = false := by
   unfold Conn.processBunch
   have h1 : ¬ (b.chSeq ≤ x.inReliable) := by omega
   have h2 : b.chSeq ≠ x.inReliable + 1 := by omega
-  simp [hrel, h1, h2, hq]
+  have h3 : ¬ (x.inRec.length + 1 ≥ reliableBuffer) := by omega
+  simp [hrel, h1, h2, h3, hq]
 
 /-- the mark is set when the close bunch is handed to the application (here: a single, in-sequence bunch) -/
 theorem close_marked_on_delivery (c : Conn) (b : Bunch) (x : Channel) (hx : c.getChan b.chIndex = some x)
